@@ -115,6 +115,14 @@ SELECT_PROGS = [
     ("ready receive written before an elapsed timeout", "#{ p = @#{ w = !#'bin, ! [#'int, 0] }, 5 p, 0xaa p, !p }", "5", None),
     ("two receive sources: written order, not arrival order", "#{ p = @#{ w = ! [#'int { =99 => Ok }], a = ! [#'int, #'bin], b = ! [#'int, #'bin], [a, b] }, 0xaa p, 5 p, 99 p, !p }", "[5, 0xaa]", None),
     ("a receive source takes the earliest message of its type", "#{ p = @#{ w = ! [#'int { =99 => Ok }], a = !#'int, b = !#'int, c = !#'bin, [a, b, c] }, 3 p, 0xaa p, 4 p, 99 p, !p }", "[3, 4, 0xaa]", None),
+    ("late arrival behind a skipped message of another type (body-less receiver; the cursor is past the head)", "#{ p = @#{ a = !#'int, b = ! [#'bin, 200], c = ! [#'int, 0], [a, b, c] }, 0x00 p, s = ! [100], 42 p, !p }", "[42, 0x00, []]", None),
+    ("late arrival behind a skipped message, with a filtering sibling source", "#{ p = @#{ a = ! [#'bin { =b => [] }, #'int], b = ! [#'bin, 200], c = ! [#'int, 0], [a, b, c] }, 0x00 p, s = ! [100], 42 p, !p }", "[42, 0x00, []]", None),
+    ("two late arrivals behind two skipped messages", "#{ p = @#{ a = !#'int, b = !#'int, c = !#'bin, d = !#'bin, [a, b, c, d] }, 0x00 p, 0x01 p, s = ! [100], 42 p, 43 p, !p }", "[42, 43, 0x00, 0x01]", None),
+    ("an awaited process finishes while a later source's filter runs: written order decides on re-entry", "#{ loop = #'int { | =0 => 0 | [~, 1] __integer_subtract__ ^ }, child = @#{ 5000 loop, 7 }, 5 ., x = ! [child, #'int { =m => 600000 loop, Ok }], [x] }", "[7]", None),
+    ("a message for an earlier filter arrives while a later filter runs: written order decides on re-entry", "#{ loop = #'int { | =0 => 0 | [~, 1] __integer_subtract__ ^ }, p = @#{ ! [#'int { =42 => Ok }, #'int { =m => 600000 loop, Ok }] }, 10 p, s = ! [100], 42 p, !p }", "42", None),
+    ("a ready receive written between a pending and an elapsed timeout", "#{ p = @#{ 7 ., 0x00 ., w = !#'bin, ! [5000, #'int, 0] }, !p }", "7", None),
+    ("a finished process written between a pending and an elapsed timeout", "#{ f = @#{ 99 }, w = !f, ! [5000, f, 0] }", "99", None),
+    ("a message delivered while the awaited processes are being asked for: the earliest message still wins", "#{ never = @#{ !#'bin }, r = @#{ &. =me, 5 me, 0x00 me, w = !#'bin, 7 me, a = ! [never, #'int], b = !#'int, [a, b] }, !r }", "[5, 7]", None),
     ("a filter rejects everything, the timeout decides, the messages stay in order", "#{ p = @#{ w = !#'bin, a = ! [#'int { =n => [] }, 30], b = !#'int, c = !#'int, [a, b, c] }, 1 p, 2 p, 0xaa p, !p }", "[[], 1, 2]", None),
 ]
 
